@@ -226,6 +226,21 @@ def coq_props(ctx, props_rel):
     return ok, res, out
 
 
+def coq_chk(pid, timeout=3000):
+    """independent re-check of the compiled property file and everything it depends on
+    (thorough tier): coqchk -o prints the axioms / unsafe features the .vo files rely on"""
+    rc, out = sh(["timeout", str(timeout), "coqchk", "-o", "-silent", "-Q", "theories", "EP", "EP.Props.%s" % pid],
+                 cwd=COQ, timeout=timeout + 30)
+    res = {"exit": rc}
+    for key, label in (("axioms", "Axioms"), ("type_in_type", "Constants/Inductives relying on type-in-type"),
+                       ("unsafe_fix", "Constants/Inductives relying on unsafe (co)fixpoints"),
+                       ("positivity", "Inductives whose positivity is assumed")):
+        m = re.search(r"\* " + re.escape(label) + r":\s*(.*?)\n\s*\n", out, re.S)
+        res[key] = m.group(1).strip() if m else "?"
+    ok = rc == 0 and all(res[k] == "<none>" for k in ("axioms", "type_in_type", "unsafe_fix", "positivity"))
+    return ok, res, out
+
+
 def theorem_names(props_rel):
     src = strip_comments(open(os.path.join(COQ, props_rel)).read())
     return re.findall(r"(?m)^\s*(?:Theorem|Corollary)\s+([\w']+)", src)
@@ -555,6 +570,11 @@ def run_check(P, argv):
             ok2, assum, raw = coq_props(ctx, props_rel)
             if not ok2:
                 problems.append(("assumptions", "Print Assumptions not closed / not parsed", json.dumps(assum) + raw[-1500:]))
+            elif tier == "thorough" and not a.replay:
+                ok3, chk, raw3 = coq_chk(P.ID)
+                ctx.chk = chk
+                if not ok3:
+                    problems.append(("coqchk", "coqchk -o does not report a clean, axiom-free development", json.dumps(chk) + raw3[-1200:]))
     discharged = len([t for t in thms if assum.get(t) == "closed"])
     ctx.say("[%s] coq: %d theorems, %d closed under the global context%s" % (
         P.ID, len(thms), discharged, "" if not problems else "  PROBLEMS: " + "; ".join(p[1] for p in problems)))
@@ -680,6 +700,7 @@ def run_check(P, argv):
         "input_distribution": res.get("hist", {}),
         "profiles": list(impl.keys()),
         "repo_state": list(repo_state()),
+        "coqchk": getattr(ctx, "chk", "thorough tier only"),
         "source_fingerprints": fps,
         "source_changed_since_baseline": changed,
         "exhaustive": bool(res.get("exhaustive", False)),
